@@ -76,42 +76,42 @@ Print Assumptions C01_compile_effectful_pap_refuted.
 (** only the taken branch of an [if] is evaluated — whatever the other branch is *)
 Theorem C01_untaken_branch_silent : forall p, pap_args_pure p ->
   forall n senv genv c bt bf t (cv:bool) t1 v t2 k,
-  wfe true (ok p) (EIf c bt bf) -> erel (ok p) (gfuncs p) senv genv ->
+  wfe true (ok p) (EIf c bt bf) -> erel DFc (ok p) (fc_gfuncs p) senv genv ->
   eval (p_funs p) n senv c t = Done (VBool cv) t1 ->
   eval_block (p_funs p) n senv (if cv then bt else bf) t1 = Done v t2 ->
-  exists gv, Geval (gfuncs p) (gvars p) genv (compile k (EIf c bt bf)) t gv t2 /\ vrel (ok p) (gfuncs p) v gv.
-Proof. exact untaken_branch_silent. Qed.
+  exists gv, Geval (fc_gfuncs p) (fc_gvars p) genv (compile DFc k (EIf c bt bf)) t gv t2 /\ vrel DFc (ok p) (fc_gfuncs p) v gv.
+Proof. exact (untaken_branch_silent_d DFc 0). Qed.
 Print Assumptions C01_untaken_branch_silent.
 
 (** only the needed operand of [&&] / [||] is evaluated *)
 Theorem C01_short_circuit : forall p, pap_args_pure p ->
   forall n senv genv a b t t1 k (is_and:bool),
-  wfe true (ok p) (EBin (if is_and then OAnd else OOr) a b) -> erel (ok p) (gfuncs p) senv genv ->
+  wfe true (ok p) (EBin (if is_and then OAnd else OOr) a b) -> erel DFc (ok p) (fc_gfuncs p) senv genv ->
   eval (p_funs p) n senv a t = Done (VBool (negb is_and)) t1 ->
-  Geval (gfuncs p) (gvars p) genv (compile k (EBin (if is_and then OAnd else OOr) a b)) t (GVBool (negb is_and)) t1.
-Proof. exact short_circuit. Qed.
+  Geval (fc_gfuncs p) (fc_gvars p) genv (compile DFc k (EBin (if is_and then OAnd else OOr) a b)) t (GVBool (negb is_and)) t1.
+Proof. exact (short_circuit_d DFc 0). Qed.
 Print Assumptions C01_short_circuit.
 
 (** a match dispatches to the arm of the constructor the value was built with *)
 Theorem C01_match_dispatches_to_constructor : forall p, pap_args_pure p ->
   forall n senv genv e u arms def t c payload t1 bx b v t2 k,
-  wfe true (ok p) (EMatchU e u arms def) -> erel (ok p) (gfuncs p) senv genv ->
+  wfe true (ok p) (EMatchU e u arms def) -> erel DFc (ok p) (fc_gfuncs p) senv genv ->
   eval (p_funs p) n senv e t = Done (VUnion u c payload) t1 ->
   find_arm c arms = Some (bx, b) ->
   eval_block (p_funs p) n
     (match bx, payload with Some x, Some pv => (x, pv) :: senv | _, _ => senv end) b t1 = Done v t2 ->
   (bx <> None -> payload <> None) ->
-  exists gv, Geval (gfuncs p) (gvars p) genv (compile k (EMatchU e u arms def)) t gv t2 /\ vrel (ok p) (gfuncs p) v gv.
-Proof. exact match_dispatches_to_constructor. Qed.
+  exists gv, Geval (fc_gfuncs p) (fc_gvars p) genv (compile DFc k (EMatchU e u arms def)) t gv t2 /\ vrel DFc (ok p) (fc_gfuncs p) v gv.
+Proof. exact (match_dispatches_to_constructor_d DFc 0). Qed.
 Print Assumptions C01_match_dispatches_to_constructor.
 
 (** operands / arguments / components are evaluated left to right *)
 Theorem C01_effects_in_source_order : forall p, pap_args_pure p ->
   forall n senv genv es t vs t' k,
-  Forall (wfe true (ok p)) es -> erel (ok p) (gfuncs p) senv genv ->
+  Forall (wfe true (ok p)) es -> erel DFc (ok p) (fc_gfuncs p) senv genv ->
   evals (p_funs p) n senv es t = Done vs t' ->
-  exists gvs, Gevals (gfuncs p) (gvars p) genv (compile_list k es) t gvs t' /\ Forall2 (vrel (ok p) (gfuncs p)) vs gvs.
-Proof. exact effects_in_source_order. Qed.
+  exists gvs, Gevals (fc_gfuncs p) (fc_gvars p) genv (compile_list DFc k es) t gvs t' /\ Forall2 (vrel DFc (ok p) (fc_gfuncs p)) vs gvs.
+Proof. exact (effects_in_source_order_d DFc 0). Qed.
 Print Assumptions C01_effects_in_source_order.
 
 (** the oracle's answer to [C01 (fragment <prog>)] is sound: a program it accepts satisfies the hypotheses *)
